@@ -14,6 +14,9 @@ import Proofs.Semaphore
 import Proofs.SemaphoreRun
 import Proofs.SemaphoreMJ
 import Proofs.SemaphoreNest
+import Martian.SemaphoreSys
+import Proofs.SemaphoreCaller
+import Proofs.SemaphoreSysLive
 import Gen.Facts
 
 namespace Props.C12
@@ -68,33 +71,80 @@ theorem head_granted_when_fits (s : Sem) (op : SemOp) (w : Waiter) (ws : List Wa
     rw [hg] at hf; simp only [List.cons_append, List.cons.injEq] at hf
     exact ⟨gs, by rw [hf.1]⟩
 
-/-- **Upper bound, as the code guarantees it.**  `reserved ≤ maxSize` and
-`curSize ≤ maxSize` after every op sequence whose releases hand back
-non-negative amounts and whose `UpdateSize` calls do not exceed the maximum
-(the only call site passes `rlimCur ≤ rlimMax`).  Acquire amounts, UpdateActual
-and UpdateFreeUsed arguments are arbitrary.
-
-Full statement (false): the same without the `updSize n ≤ max` restriction —
-see `updSize_above_max_breaks_bound`. -/
-theorem reserved_le_max_partial (size : Int) (hs : 0 ≤ size) (ops : List SemOp)
-    (hop : ∀ op ∈ ops, OpOK size op) :
+/-- **The configured limit is never exceeded** (raw API level).  After every
+sequence of `Acquire` (any amount), `Release` (non-negative amount),
+`UpdateActual` and `UpdateFreeUsed` (any arguments) calls: `reserved ≤ maxSize`
+and `curSize ≤ maxSize`.  These are all the calls the job manager makes on the
+core, memory and vmem semaphores: `UpdateSize` is called on the process
+semaphore only (regenerated obligation `updateSize_called_only_in_setup`;
+`procs_limit_never_exceeded` covers that caller). -/
+theorem raw_limits_never_exceeded (size : Int) (hs : 0 ≤ size) (ops : List SemOp)
+    (hnu : ∀ op ∈ ops, ∀ n, op ≠ .updSize n) (hrel : ∀ op ∈ ops, op.relNonneg) :
     (run (Sem.init size) ops).1.reserved ≤ size ∧ (run (Sem.init size) ops).1.cur ≤ size := by
-  have := run_bounded (Sem.init size) ops ⟨by simp [Sem.init], by simpa [Sem.init] using hs⟩
-    (by simpa [Sem.init] using hop)
+  have hop : ∀ op ∈ ops, OpOK (Sem.init size).max op := by
+    intro op h
+    cases op with
+    | release n => exact hrel _ h
+    | updSize n => exact absurd rfl (hnu _ h n)
+    | acquire id n => trivial
+    | updActual n => trivial
+    | updFreeUsed f u => trivial
+  have := run_bounded (Sem.init size) ops ⟨by simp [Sem.init], by simpa [Sem.init] using hs⟩ hop
   rw [Bounded, run_max] at this
   exact ⟨this.2, this.1⟩
 
-/-- Negative witness: `UpdateSize(n)` with `n > maxSize` is not clamped (unlike
-UpdateActual / UpdateFreeUsed), after which more than `maxSize` can be reserved. -/
+/-- Negative witness (API caveat, no caller does this): `UpdateSize(n)` with
+`n > maxSize` is not clamped (unlike UpdateActual / UpdateFreeUsed), after which
+more than `maxSize` can be reserved.  Replayed on the real semaphore by the harness. -/
 theorem updSize_above_max_breaks_bound :
     (run (Sem.init 10) [.updSize 20, .acquire 1 15]).1.reserved > 10 := by decide
 
-/-- Negative witness for "reserved never exceeds what is currently available":
-availability may be lowered under what is already reserved (this is intended:
-the reservation is kept, further grants wait). -/
+/-- Witness that "in use ≤ current availability" is NOT an invariant: an
+availability update (here `UpdateFreeUsed(0, 0)`: the OS reports no free memory)
+may put `curSize` under what is already reserved.  What the code guarantees in
+that situation is `overcommit_is_transient` / `reserved_le_prev_or_cur` below;
+the configured limit `maxSize` is still never exceeded. -/
 theorem update_may_lower_cur_below_reserved :
     (run (Sem.init 10) [.acquire 1 8, .updFreeUsed 0 0]).1.cur
       < (run (Sem.init 10) [.acquire 1 8, .updFreeUsed 0 0]).1.reserved := by decide
+
+/-- **What an availability drop below the reservation means.**  For every call
+with a non-negative release amount: afterwards `reserved` is at most what it
+was before, or at most the availability after the call.  So `reserved > curSize`
+can only be the leftover of an earlier, larger availability — a call never
+creates or enlarges it (and, by `grant_fits`, nothing is granted while it lasts). -/
+theorem reserved_le_prev_or_cur (s : Sem) (op : SemOp) (h : op.relNonneg) :
+    (step s op).1.reserved ≤ s.reserved ∨ (step s op).1.reserved ≤ (step s op).1.cur :=
+  step_reserved_le s op h
+
+/-- **The over-commitment is transient**: between two availability updates (any
+sequence of Acquire / non-negative Release calls, from ANY state) the
+availability does not change and the reservation stays below
+max(reservation at the start, availability): it can only shrink until it fits. -/
+theorem overcommit_is_transient (s : Sem) (ops : List SemOp)
+    (h1 : ∀ op ∈ ops, op.isAcqRel = true) (h2 : ∀ op ∈ ops, op.relNonneg) :
+    (run s ops).1.cur = s.cur ∧
+    ((run s ops).1.reserved ≤ s.reserved ∨ (run s ops).1.reserved ≤ s.cur) :=
+  run_overcommit_transient s ops h1 h2
+
+/-- **A request larger than the maximum never waits**: it is granted at once
+(only possible after an `UpdateSize` above the maximum) or refused with the
+error; the queue is left untouched.  Hence every queued request is within the
+maximum (`queued_requests_within_max`). -/
+theorem oversized_request_never_waits (s : Sem) (id : Nat) (n : Int) (h : s.max < n) :
+    (step s (.acquire id n)).1.waiters = s.waiters ∧
+    ((step s (.acquire id n)).2 = [.grant id n] ∨ (step s (.acquire id n)).2 = [.reject id n]) := by
+  simp only [step]
+  by_cases hf : n ≤ s.cur - s.reserved ∧ s.waiters.isEmpty = true
+  · rw [if_pos hf]; simp
+  · rw [if_neg hf, if_pos h]; simp
+
+theorem queued_requests_within_max (size : Int) (ops : List SemOp) :
+    ∀ w ∈ (run (Sem.init size) ops).1.waiters, w.2 ≤ size := by
+  have := run_waitersLeMax (Sem.init size) ops (by intro w hw; simp [Sem.init] at hw)
+  intro w hw
+  have h := this w hw
+  rwa [run_max] at h
 
 /-! ## The client protocol (callers release exactly what they were granted) -/
 
@@ -140,20 +190,42 @@ theorem client_never_panics_and_no_lost_wakeup (size : Int) (ops : List COp)
   obtain ⟨g, p, _⟩ := grun_inv (G.init size) ops (good_init size) hop
   exact ⟨p, g.noLost⟩
 
-/-- **Limits are never exceeded**: under the client protocol with non-negative
-requests (and `UpdateSize ≤ max`), the sum of what the current holders hold is
-at most `maxSize` at every instant. -/
-theorem held_le_max_partial (size : Int) (hs : 0 ≤ size) (ops : List COp)
-    (hop : ∀ op ∈ ops, op.reqNonneg) (hsz : ∀ op ∈ ops, op.sizeOK size) :
-    sumAmt (grun (G.init size) ops).1.held ≤ size := by
-  have hb := grun_bounded (G.init size) ops (good_init size)
-    ⟨by simp [G.init, Sem.init], by simpa [G.init, Sem.init] using hs⟩ hop
-    (by simpa [G.init, Sem.init] using hsz)
-  obtain ⟨_, _, hm⟩ := grun_inv (G.init size) ops (good_init size) hop
-  rw [← reserved_eq_sum_held]
-  have := hb.2
-  rw [hm] at this
-  simpa [G.init, Sem.init] using this
+/-- **Limits are never exceeded** (cores, memory, vmem).  Under the caller
+protocol of `Enqueue` (non-negative requests, every caller releases what it was
+granted) with arbitrary `UpdateActual` / `UpdateFreeUsed` availability updates
+interleaved — i.e. everything the job manager does to these three semaphores —
+the sum of what the current holders hold, `reserved` and `curSize` are at most
+the configured limit at every instant. -/
+theorem limits_never_exceeded (size : Int) (hs : 0 ≤ size) (ops : List COp)
+    (hop : ∀ op ∈ ops, op.reqNonneg) (hnu : ∀ op ∈ ops, op.isUpdSize = false) :
+    sumAmt (grun (G.init size) ops).1.held ≤ size ∧
+    (grun (G.init size) ops).1.sem.reserved ≤ size ∧ (grun (G.init size) ops).1.sem.cur ≤ size :=
+  grun_held_le size hs ops hop (fun op h => sizeOK_of_not_updSize size op (hnu op h))
+
+/-- `getrlimit` returns `rlim_cur ≤ rlim_max` as unsigned 64-bit values; whenever
+both pass `setupSemaphores`' guard `> startingThreadCount` after conversion to
+`int64` (which maps RLIM_INFINITY to -1), the order survives the conversion. -/
+theorem rlimit_cur_le_max_int64 (c m : Nat) (hcm : c ≤ m) (hm64 : m < 2 ^ 64)
+    (gc : startingThreadCount < toInt64 c) (gm : startingThreadCount < toInt64 m) :
+    toInt64 c ≤ toInt64 m :=
+  toInt64_le c m hcm hm64 gc gm
+
+/-- **The process semaphore**, the only one `UpdateSize` is called on: after
+`setupSemaphores`' calls (`procsSetup`: `Acquire(startingThreadCount)`, then
+`UpdateSize(rlimCur)` or `UpdateFreeUsed(rlimCur - userProcs, startingThreadCount)`)
+followed by any `Enqueue` / `refreshResources` traffic, the holdings never
+exceed its size `rlimMax`. -/
+theorem procs_limit_never_exceeded (rcur rmax : Nat) (u : Option Int) (hcm : rcur ≤ rmax)
+    (h64 : rmax < 2 ^ 64) (m : Int) (pre : List COp) (hset : procsSetup rcur rmax u = some (m, pre))
+    (ops : List COp) (hop : ∀ op ∈ ops, op.reqNonneg) (hnu : ∀ op ∈ ops, op.isUpdSize = false) :
+    sumAmt (grun (G.init m) (pre ++ ops)).1.held ≤ m ∧
+    (grun (G.init m) (pre ++ ops)).1.sem.reserved ≤ m := by
+  obtain ⟨hm, hp1, hp2⟩ := procsSetup_ok rcur rmax u hcm h64 m pre hset
+  have := grun_held_le m hm (pre ++ ops)
+    (by intro op h; rcases List.mem_append.mp h with h | h; exact hp1 op h; exact hop op h)
+    (by intro op h; rcases List.mem_append.mp h with h | h; exact hp2 op h
+        exact sizeOK_of_not_updSize m op (hnu op h))
+  exact ⟨this.1, this.2.1⟩
 
 /-- **No stall.**  In any state reachable by clients with non-negative
 requests: if every holder has released (`held = []`) and availability is back
@@ -195,26 +267,75 @@ theorem progress_round (size : Int) (ops : List COp) (hop : ∀ op ∈ ops, op.r
   have := round_facts _ (grun_inv (G.init size) ops (good_init size) hop).1
   exact ⟨this.2.2.1, this.2.2.2⟩
 
-/-! ## Nested acquisition of a local job (cores → memory → vmem → processes) -/
+/-! ## The local job manager as a system: nested acquisition never stalls
 
-/-- **No deadlock among the nested semaphores.**  Take any list of semaphores
-acquired in list order, each in a state reachable by well-behaved clients
-(`Good`) with availability at the maximum, whose holders have the shape that
-hold-and-wait in one global order produces (`Disciplined`: a holder of one
-semaphore holds all later ones or is queued on a later one; holders of later
-semaphores hold the earlier ones).  If no job runs (nobody holds them all),
-then nobody waits on any of them: "all jobs blocked, none running" is
-impossible.
+`Sys` (Martian/SemaphoreSys.lean): every job takes the semaphores in list order
+(= `Gen.localAcquireOrder`), holding what it has while it waits; a refused
+Acquire makes it give back what it holds; after the job process has run the
+deferred releases run in reverse order (`Gen.localReleaseOrder`).  `Sys.act y j`
+is the next semaphore call of job `j`; a schedule is any list of job ids.  The
+theorems are about every state `(Sys.init sizes jobs).runSched js` — every
+interleaving — with availability at the maximum. -/
 
-Partial: that every instant of `LocalJobManager.Enqueue` with no job between
-two `Acquire` calls is `Disciplined` is not proved here; it rests on the shape
-of `Enqueue` (one acquisition order — regenerated obligation
-`acquire_order_ok` —, releases deferred until the job has run) and is
-monitored on real jobs by the harness (`C12:local:stall`). -/
-theorem ordered_acquisition_no_deadlock_partial (ps : List (Sem × List Waiter))
-    (hg : ∀ p ∈ ps, Good p ∧ p.1.cur = p.1.max) (hd : Disciplined ps)
-    (hnorun : ∀ id, ¬ ∀ p ∈ ps, id ∈ hid p) : ∀ p ∈ ps, p.1.waiters = [] :=
-  nested_queues_empty ps hg hd hnorun
+/-- **No deadlock.**  In every reachable state, unless every job is over, some
+job can act: "all remaining jobs blocked in Acquire, none running" never happens. -/
+theorem local_no_deadlock (sizes : List Int) (jobs : List (Nat × List Int))
+    (hnd : (jobs.map Prod.fst).Nodup) (hnn : ∀ p ∈ jobs, ∀ s, 0 ≤ p.2.getD s 0) (js : List Nat)
+    (h : ((Sys.init sizes jobs).runSched js).allOver = false) :
+    ∃ b ∈ ((Sys.init sizes jobs).runSched js).jobs, b.enabled = true :=
+  exists_enabled _ (runSched_inv _ (init_inv sizes jobs hnd hnn) js) h
+
+/-- **Ranking.**  Every action of a job that can act (an Acquire that is granted,
+queued or refused; the end of the job process; a Release, which may wake
+waiters) strictly decreases `Sys.rank`. -/
+theorem local_action_decreases_rank (sizes : List Int) (jobs : List (Nat × List Int))
+    (hnd : (jobs.map Prod.fst).Nodup) (hnn : ∀ p ∈ jobs, ∀ s, 0 ≤ p.2.getD s 0) (js : List Nat)
+    (b : LJob) (hb : b ∈ ((Sys.init sizes jobs).runSched js).jobs) (he : b.enabled = true) :
+    (((Sys.init sizes jobs).runSched js).act b.id).rank < ((Sys.init sizes jobs).runSched js).rank :=
+  act_rank_lt _ (runSched_inv _ (init_inv sizes jobs hnd hnn) js) b hb he
+
+/-- Hence no execution is infinite: a schedule in which every step is a step of
+a job that can act has at most `rank` steps. -/
+theorem local_schedules_are_bounded (sizes : List Int) (jobs : List (Nat × List Int))
+    (hnd : (jobs.map Prod.fst).Nodup) (hnn : ∀ p ∈ jobs, ∀ s, 0 ≤ p.2.getD s 0) (js : List Nat)
+    (h : (Sys.init sizes jobs).EnabledSched js) : js.length ≤ (Sys.init sizes jobs).rank := by
+  have := sched_bound _ (init_inv sizes jobs hnd hnn) js h
+  omega
+
+/-- **Never stalls.**  Whatever the interleaving: when no job can act any more
+(which happens after at most `rank` steps, and cannot happen earlier than the
+end by `local_no_deadlock`), every job is over; every job whose amounts fit the
+semaphore sizes was granted all its semaphores, ran and was never refused.
+(A job that does not fit was refused by the first semaphore it does not fit —
+it never waits, `oversized_request_never_waits`.) -/
+theorem local_every_schedule_finishes (sizes : List Int) (jobs : List (Nat × List Int))
+    (hnd : (jobs.map Prod.fst).Nodup) (hnn : ∀ p ∈ jobs, ∀ s, 0 ≤ p.2.getD s 0) (js : List Nat)
+    (hmax : ∀ j, ((Sys.init sizes jobs).runSched js).enabledId j = false) :
+    ((Sys.init sizes jobs).runSched js).allOver = true ∧
+    ∀ p ∈ jobs, fitsSizes p.2 sizes →
+      ∃ b ∈ ((Sys.init sizes jobs).runSched js).jobs,
+        b.id = p.1 ∧ b.ph = .rel 0 ∧ b.ran = true ∧ b.failed = false := by
+  have inv := runSched_inv _ (init_inv sizes jobs hnd hnn) js
+  obtain ⟨hover, hall⟩ := maximal_all_over _ inv hmax
+  refine ⟨hover, ?_⟩
+  intro p hp hfit
+  have hst := runSched_static (Sys.init sizes jobs) js
+  rw [(init_static sizes jobs).1] at hst
+  have hk : p ∈ ((Sys.init sizes jobs).runSched js).jobs.map jobKey := by
+    rw [hst.2, (init_static sizes jobs).2]; exact hp
+  obtain ⟨b, hb, hbk⟩ := List.mem_map.mp hk
+  have hid : b.id = p.1 := by rw [← hbk]; rfl
+  have ham : b.amts = p.2 := by rw [← hbk]; rfl
+  obtain ⟨h1, h2, h3⟩ := hall b hb (fits_of_fitsSizes b _ sizes hst.1 (by rw [ham]; exact hfit))
+  exact ⟨b, hb, hid, h1, h2, h3⟩
+
+/-- Such a finishing execution exists from every reachable state (the
+statement above is not vacuous). -/
+theorem local_finishing_schedule_exists (sizes : List Int) (jobs : List (Nat × List Int))
+    (hnd : (jobs.map Prod.fst).Nodup) (hnn : ∀ p ∈ jobs, ∀ s, 0 ≤ p.2.getD s 0) (js : List Nat) :
+    ∃ js', ((Sys.init sizes jobs).runSched js).EnabledSched js' ∧
+      (((Sys.init sizes jobs).runSched js).runSched js').allOver = true :=
+  finishing_schedule _ _ (runSched_inv _ (init_inv sizes jobs hnd hnn) js) (Nat.le_refl _)
 
 /-! ## MaxJobsSemaphore -/
 
@@ -341,6 +462,35 @@ theorem normalize_idempotent (c : LocalCfg) (hc : Sane c) (m1 v1 m2 v2 : Int) (r
         split at hz <;> omega
       · exact reqV_fix c v2 _ _ _ hz (fun h => absurd h hv) (fun _ => hb)
 
+/-- **Clamped requests fit every semaphore**, so by `local_every_schedule_finishes`
+every such job runs: with a vmem limit not below the memory limit and a process
+semaphore of at least `procsPerJob + maxCores`, the four amounts `Enqueue`
+acquires for ANY request (zero, adaptive, oversized) are non-negative and within
+the sizes `setupSemaphores` gives the semaphores. -/
+theorem normalized_amounts_fit (c : LocalCfg) (hc : Sane c) (hv : 0 < c.maxVmemMB)
+    (hvm : c.maxMemGB * 1024 ≤ c.maxVmemMB) (procs : Int) (hp : procsPerJob + c.maxCores ≤ procs)
+    (mc vc : Int) (r : Req) :
+    let a := acquireAmounts (normalize c mc vc r)
+    fitsSizes [a.1, a.2.1, a.2.2.1, a.2.2.2] [c.maxCores * 100, c.maxMemGB * 1024, c.maxVmemMB, procs] ∧
+    (∀ s, 0 ≤ [a.1, a.2.1, a.2.2.1, a.2.2.2].getD s 0) := by
+  have h := clamp_le_limits c hc mc vc r
+  have hv3 := vmem_never_rejected_partial c hc mc vc r hv hvm
+  simp only at h
+  obtain ⟨h1, h2, h3, h4, h5⟩ := h
+  obtain ⟨h6, _⟩ := h5 hv
+  simp only [acquireAmounts] at hv3 ⊢
+  have e1 : Int.tdiv ((normalize c mc vc r).centi + 99) 100 = ((normalize c mc vc r).centi + 99) / 100 :=
+    Int.tdiv_eq_ediv_of_nonneg (by omega)
+  have e2 : Int.tdiv (normalize c mc vc r).vmemMb 1024 = (normalize c mc vc r).vmemMb / 1024 :=
+    Int.tdiv_eq_ediv_of_nonneg (by omega)
+  rw [e1, e2] at *
+  unfold procsPerJob at *
+  constructor
+  · intro i m hi
+    rcases i with _ | _ | _ | _ | i <;> simp at hi <;> subst hi <;> simp <;> omega
+  · intro s
+    rcases s with _ | _ | _ | _ | s <;> simp <;> omega
+
 /-! ## Regenerated obligations (jobmanager_local.go as it is now) -/
 
 /-- Every local job takes the semaphores in one and the same order
@@ -351,6 +501,279 @@ theorem acquire_order_ok :
 
 /-- the per-job process estimate constant used by the model is the one in the source -/
 theorem procs_per_job_ok : Gen.localProcsPerJob = procsPerJob := by decide
+
+/-- `UpdateSize` has exactly one caller in martian: `setupSemaphores`, on the
+process semaphore, with `rlimCur` (≤ `rlimMax`, the size it was created with).
+The core, memory and vmem semaphores never see it. -/
+theorem updateSize_called_only_in_setup :
+    Gen.updateSizeCalls = [("jobmanager_local.go", "setupSemaphores", "self.procsSem", "rlimCur(rlim)")] := by
+  decide
+
+/-- the deferred releases of `Enqueue` are written in acquisition order, so they
+run in reverse acquisition order, as `Sys.act` releases -/
+theorem release_order_ok : Gen.localReleaseOrder = Gen.localAcquireOrder := by decide
+
+theorem starting_threads_ok : Gen.localStartingThreads = startingThreadCount := by decide
+
+/-! ### The arithmetic the model mirrors, statement by statement
+
+Per function: conditions, assignments, returns, defers and non-logging calls of
+the current source in source order (`extract/c12_arith.go`).  A flipped
+comparison, a changed constant, a dropped `runJobs()` / `Signal()` or a reordered
+Acquire breaks the obligation named after the function (and the correspondence
+run finds the input).  `_extracted = false` (function not found) is reported as
+a note by ./check; the correspondence is then the only tie. -/
+
+theorem skel_Acquire_ok :
+    Gen.c12Skel_Acquire_extracted = false ∨ Gen.c12Skel_Acquire =
+    ["self.mu.Lock()",
+     "if self.curSize-self.reserved >= n && len(self.waiters) == 0",
+     "self.reserved += n",
+     "self.mu.Unlock()",
+     "return nil",
+     "if n > self.maxSize",
+     "self.mu.Unlock()",
+     "return <error>",
+     "if len(self.waiters) == 0 && self.curSize-self.reserved > 0",
+     "ready := make(chan struct{})",
+     "w := waiter{amount: n, ready: ready}",
+     "self.waiters = append(self.waiters, w)",
+     "self.mu.Unlock()",
+     "<-ready",
+     "return nil"] := by
+  first | exact Or.inr rfl | exact Or.inl rfl
+
+theorem skel_Enqueue_ok :
+    Gen.c12Skel_Enqueue_extracted = false ∨ Gen.c12Skel_Enqueue =
+    ["res := self.GetSystemReqs(resRequest)",
+     "centiCores := int64(math.Ceil(res.Threads * 100))",
+     "err := self.centcoreSem.Acquire(centiCores)",
+     "self.centcoreSem.Release(centiCores)",
+     "memMb := int64(math.Ceil(res.MemGB * 1024))",
+     "err := self.memMBSem.Acquire(memMb)",
+     "self.memMBSem.Release(memMb)",
+     "sem := self.vmemMBSem",
+     "vmem := int64(res.VMemGB) * 1024",
+     "err := sem.Acquire(vmem)",
+     "sem.Release(vmem)",
+     "if self.procsSem != nil",
+     "procEstimate := procsPerJob + (centiCores+99)/100",
+     "err := self.procsSem.Acquire(procEstimate)",
+     "self.procsSem.Release(procEstimate)",
+     "err := executeLocal(cmd, stdoutPath, stderrPath, localpreflight, metadata)"] := by
+  first | exact Or.inr rfl | exact Or.inl rfl
+
+theorem skel_GetSystemReqs_ok :
+    Gen.c12Skel_GetSystemReqs_extracted = false ∨ Gen.c12Skel_GetSystemReqs =
+    ["result := *request",
+     "if result.Threads < 0",
+     "centiCores = int(math.Floor(result.Threads * 100))",
+     "else",
+     "centiCores = int(math.Ceil(result.Threads * 100))",
+     "if centiCores == 0",
+     "centiCores = self.jobSettings.ThreadsPerJob * 100",
+     "else",
+     "if centiCores < 0",
+     "centiCores = self.maxCores * 100",
+     "if centiCores > self.maxCores*100",
+     "result.Threads = float64(self.maxCores)",
+     "else",
+     "result.Threads = float64(centiCores) / 100",
+     "if result.MemGB < 0",
+     "memMb = int64(math.Floor(result.MemGB * 1024))",
+     "else",
+     "memMb = int64(math.Ceil(result.MemGB * 1024))",
+     "if memMb == 0",
+     "memMb = int64(self.jobSettings.MemGBPerJob) * 1024",
+     "else",
+     "if memMb < 0",
+     "avail := self.memMBSem.CurrentSize()",
+     "if avail < 1 || avail < -memMb",
+     "memMb = -memMb",
+     "else",
+     "memMb = avail",
+     "if result.VMemGB < 0",
+     "vmemMb = int64(math.Floor(result.VMemGB * 1024))",
+     "else",
+     "vmemMb = int64(math.Ceil(result.VMemGB * 1024))",
+     "if vmemMb == 0",
+     "vmemMb = memMb + int64(self.jobSettings.ExtraVmemGB)*1024",
+     "if vmemMb < 0",
+     "if self.vmemMBSem != nil",
+     "avail := self.vmemMBSem.CurrentSize()",
+     "if avail < 1 || avail < -vmemMb",
+     "vmemMb = -vmemMb",
+     "else",
+     "vmemMb = avail",
+     "if memMb > int64(self.maxMemGB)*1024",
+     "memMb = int64(self.maxMemGB) * 1024",
+     "if self.maxVmemMB > 0 && vmemMb > self.maxVmemMB",
+     "vmemMb = self.maxVmemMB",
+     "if vmemMb > 0 && vmemMb < memMb",
+     "vmemMb = memMb",
+     "result.MemGB = float64(memMb) / 1024",
+     "result.VMemGB = float64(vmemMb) / 1024",
+     "return result"] := by
+  first | exact Or.inr rfl | exact Or.inl rfl
+
+theorem skel_MaxJobsAcquire_ok :
+    Gen.c12Skel_MaxJobsAcquire_extracted = false ∨ Gen.c12Skel_MaxJobsAcquire =
+    ["if metadata == nil",
+     "return false",
+     "st, ok := metadata.getState()",
+     "if ok && st != Queued && st != Waiting",
+     "return false",
+     "defer self.cond.Signal()",
+     "self.lock.Lock()",
+     "defer self.lock.Unlock()",
+     "for len(self.running) >= self.Limit",
+     "if self.Limit <= 0",
+     "return false",
+     "st, ok := metadata.getState()",
+     "if ok && st != Queued && st != Waiting",
+     "return false",
+     "_, ok := self.running[metadata]",
+     "if ok",
+     "return true",
+     "if nonblocking",
+     "return false",
+     "self.cond.Wait()",
+     "st, ok := metadata.getState()",
+     "if ok && st != Queued && st != Waiting",
+     "return false",
+     "self.running[metadata] = struct{}{}",
+     "return true"] := by
+  first | exact Or.inr rfl | exact Or.inl rfl
+
+theorem skel_MaxJobsClear_ok :
+    Gen.c12Skel_MaxJobsClear_extracted = false ∨ Gen.c12Skel_MaxJobsClear =
+    ["self.lock.Lock()",
+     "defer self.lock.Unlock()",
+     "self.Limit = 0",
+     "self.cond.Broadcast()"] := by
+  first | exact Or.inr rfl | exact Or.inl rfl
+
+theorem skel_MaxJobsFindDone_ok :
+    Gen.c12Skel_MaxJobsFindDone_extracted = false ∨ Gen.c12Skel_MaxJobsFindDone =
+    ["self.lock.Lock()",
+     "defer self.lock.Unlock()",
+     "finished := make([]*Metadata, 0, len(self.running))",
+     "for range self.running",
+     "st, ok := m.getState()",
+     "if ok && st != Running && st != Queued",
+     "finished = append(finished, m)",
+     "if len(finished) > 0",
+     "for range finished",
+     "delete(self.running, m)",
+     "spare := self.Limit - len(self.running)",
+     "if spare > 1",
+     "self.cond.Broadcast()",
+     "else",
+     "if spare == 1",
+     "self.cond.Signal()"] := by
+  first | exact Or.inr rfl | exact Or.inl rfl
+
+theorem skel_MaxJobsRelease_ok :
+    Gen.c12Skel_MaxJobsRelease_extracted = false ∨ Gen.c12Skel_MaxJobsRelease =
+    ["if metadata == nil",
+     "return",
+     "self.lock.Lock()",
+     "defer self.lock.Unlock()",
+     "_, ok := self.running[metadata]",
+     "if ok",
+     "delete(self.running, metadata)",
+     "self.cond.Signal()"] := by
+  first | exact Or.inr rfl | exact Or.inl rfl
+
+theorem skel_Release_ok :
+    Gen.c12Skel_Release_extracted = false ∨ Gen.c12Skel_Release =
+    ["self.mu.Lock()",
+     "defer self.mu.Unlock()",
+     "self.reserved -= n",
+     "if self.reserved < 0",
+     "panic(\"semaphore: bad release\")",
+     "self.runJobs()"] := by
+  first | exact Or.inr rfl | exact Or.inl rfl
+
+theorem skel_UpdateActual_ok :
+    Gen.c12Skel_UpdateActual_extracted = false ∨ Gen.c12Skel_UpdateActual =
+    ["self.mu.Lock()",
+     "actualSize := n + self.reserved",
+     "oldSize := self.curSize",
+     "if actualSize > self.maxSize",
+     "self.curSize = self.maxSize",
+     "else",
+     "self.curSize = actualSize",
+     "if oldSize < self.curSize",
+     "self.runJobs()",
+     "self.mu.Unlock()",
+     "return actualSize - self.maxSize"] := by
+  first | exact Or.inr rfl | exact Or.inl rfl
+
+theorem skel_UpdateFreeUsed_ok :
+    Gen.c12Skel_UpdateFreeUsed_extracted = false ∨ Gen.c12Skel_UpdateFreeUsed =
+    ["actualSize := free + usedReservation",
+     "self.mu.Lock()",
+     "oldSize := self.curSize",
+     "if usedReservation <= self.reserved",
+     "if actualSize > self.maxSize",
+     "self.curSize = self.maxSize",
+     "else",
+     "self.curSize = actualSize",
+     "else",
+     "adjust := usedReservation - self.reserved",
+     "if actualSize > self.maxSize-adjust",
+     "self.curSize = self.maxSize - adjust",
+     "else",
+     "self.curSize = actualSize - adjust",
+     "if oldSize < self.curSize",
+     "self.runJobs()",
+     "self.mu.Unlock()",
+     "return actualSize - self.maxSize"] := by
+  first | exact Or.inr rfl | exact Or.inl rfl
+
+theorem skel_UpdateSize_ok :
+    Gen.c12Skel_UpdateSize_extracted = false ∨ Gen.c12Skel_UpdateSize =
+    ["self.mu.Lock()",
+     "defer self.mu.Unlock()",
+     "oldSize := self.curSize",
+     "self.curSize = n",
+     "if oldSize < self.curSize",
+     "self.runJobs()"] := by
+  first | exact Or.inr rfl | exact Or.inl rfl
+
+theorem skel_runJobs_ok :
+    Gen.c12Skel_runJobs_extracted = false ∨ Gen.c12Skel_runJobs =
+    ["for range self.waiters",
+     "if self.curSize-self.reserved < waiter.amount",
+     "if self.curSize-self.reserved > 0",
+     "self.waiters = self.waiters[i:]",
+     "return",
+     "self.reserved += waiter.amount",
+     "close(waiter.ready)",
+     "waiter.ready = nil",
+     "if cap(self.waiters) < 2+2*len(self.waiters)",
+     "self.waiters = nil",
+     "else",
+     "self.waiters = self.waiters[len(self.waiters):]"] := by
+  first | exact Or.inr rfl | exact Or.inl rfl
+
+theorem skel_setupSemaphores_ok :
+    Gen.c12Skel_setupSemaphores_extracted = false ∨ Gen.c12Skel_setupSemaphores =
+    ["self.centcoreSem = NewResourceSemaphore(int64(self.maxCores)*100, formatCentiThreads)",
+     "self.memMBSem = NewResourceSemaphore(int64(self.maxMemGB)*1024, formatMemMB)",
+     "if self.maxVmemMB > 0",
+     "self.vmemMBSem = NewResourceSemaphore(self.maxVmemMB, formatVMemMB)",
+     "rlim, err := GetMaxProcs()",
+     "if rlimMax(rlim) > startingThreadCount && rlimCur(rlim) > startingThreadCount",
+     "self.procsSem = NewResourceSemaphore(rlimMax(rlim), DefaultResourceFormatter(\"processes\"))",
+     "err := self.procsSem.Acquire(startingThreadCount)",
+     "userProcs, err := GetUserProcessCount()",
+     "self.procsSem.UpdateSize(rlimCur(rlim))",
+     "self.procsSem.UpdateFreeUsed( rlimCur(rlim)-int64(userProcs), startingThreadCount)",
+     "if self.procsSem.Available()/(procsPerJob+1) < int64(self.maxCores)",
+     "if rlimMax(rlim) > rlimCur(rlim)"] := by
+  first | exact Or.inr rfl | exact Or.inl rfl
 
 /-! ## Non-vacuity -/
 
@@ -383,21 +806,27 @@ example :
     (∀ op ∈ ops, op.reqNonneg) ∧ (grun (G.init 10) ops).1.held = [] ∧
     (grun (G.init 10) ops).1.sem.cur = (grun (G.init 10) ops).1.sem.max := by dsimp only; decide
 
-/-- `ordered_acquisition_no_deadlock_partial`: the hypotheses hold for an idle
-system, and `Disciplined` also admits busy states (job 1 runs holding both
-semaphores, job 2 holds the first and is queued on the second). -/
+/-- the local-job system: three jobs on two semaphores (job 3 does not fit the
+first one); an interleaving in which every step is enabled, ending with nobody
+able to act: jobs 1 and 2 ran, job 3 was refused -/
 example :
-    (∀ p ∈ [(Sem.init 4, ([] : List Waiter)), (Sem.init 8, [])], Good p ∧ p.1.cur = p.1.max) ∧
-    Disciplined [(Sem.init 4, []), (Sem.init 8, [])] ∧
-    (∀ id, ¬ ∀ p ∈ [(Sem.init 4, ([] : List Waiter)), (Sem.init 8, [])], id ∈ hid p) ∧
-    Disciplined [(⟨4, 4, 4, []⟩, [(1, 2), (2, 2)]), (⟨8, 8, 6, [(2, 5)]⟩, [(1, 6)])] := by
-  refine ⟨?_, ?_, ?_, ?_⟩
-  · intro p hp
-    simp only [List.mem_cons, List.not_mem_nil, or_false] at hp
-    rcases hp with h | h <;> subst h <;> exact ⟨good_fresh _, rfl⟩
-  · simp [Disciplined, hid]
-  · intro id h; have := h (Sem.init 4, []) (by simp); simp [hid] at this
-  · simp [Disciplined, hid, wid]
+    let y := Sys.init [4, 8] [(1, [3, 6]), (2, [2, 5]), (3, [9, 1])]
+    let js := [2, 1, 3, 2, 2, 2, 2, 1, 1, 1, 1]
+    y.EnabledSched js ∧ (y.runSched js).allOver = true ∧
+    ((y.runSched js).jobs.map fun b => (b.id, b.ran, b.failed)) =
+      [(1, true, false), (2, true, false), (3, false, true)] ∧
+    fitsSizes [3, 6] [4, 8] ∧ ¬ fitsSizes [9, 1] [4, 8] := by
+  refine ⟨by decide, by decide, by decide, ?_, ?_⟩
+  · intro i m h; rcases i with _ | _ | i <;> simp at h <;> subst h <;> simp
+  · intro h; have := h 0 4 rfl; simp at this
+
+/-- `procsSetup`: ulimit -u 4096 (soft) / 8192 (hard), user process count unknown -/
+example : procsSetup 4096 8192 none = some (8192, [.acquire 0 45, .updSize 4096]) ∧
+    procsSetup (2 ^ 64 - 1) (2 ^ 64 - 1) none = none := by decide
+
+/-- `overcommit_is_transient` hypotheses are satisfiable from an over-committed state -/
+example : (run ⟨10, 2, 8, []⟩ [.acquire 1 1, .release 3, .release 5, .acquire 2 1]).1.reserved = 2 ∧
+    (∀ op ∈ [SemOp.acquire 1 1, .release 3, .release 5, .acquire 2 1], op.isAcqRel = true) := by decide
 
 /-- a sane configuration; zero, adaptive and oversized requests -/
 example : Sane ⟨4, 8, 16384, 1, 1, 3⟩ ∧
